@@ -323,6 +323,9 @@ def run(ctx: Any, prog: Program) -> None:
     if not child_lists:
         raise AnalysisError('Keyvalues.parse: the local holding the current child list (bound from/with `._value`) was not found')
     b = borrowed_names(parse, set(child_lists))
+    # Token.PROP_FLAG, or a local alias of it (`PROP_FLAG: Final = Token.PROP_FLAG`)
+    prop_flag_names = {'PROP_FLAG'} | {t.id for a_ in ast.walk(parse) if isinstance(a_, (ast.Assign, ast.AnnAssign)) and getattr(a_, 'value', None) is not None and dotted(a_.value) == 'Token.PROP_FLAG'
+                                       for t in (a_.targets if isinstance(a_, ast.Assign) else [a_.target]) if isinstance(t, ast.Name)}
     for n in walk_no_nested(parse):
         if isinstance(n, ast.Call) and isinstance(n.func, ast.Attribute) and dotted(n.func.value) in child_lists:
             if n.func.attr in ('insert', 'sort', 'reverse', 'pop', 'remove', 'extend', 'clear'):
@@ -336,7 +339,7 @@ def run(ctx: Any, prog: Program) -> None:
                     p = kv.parents.get(n)
                     guarded = False
                     while p is not None and p is not parse:
-                        if isinstance(p, ast.If) and any(isinstance(c, ast.Name) and c.id == 'PROP_FLAG' for c in ast.walk(p.test)) \
+                        if isinstance(p, ast.If) and any((isinstance(c, ast.Name) and c.id in prop_flag_names) or dotted(c) == 'Token.PROP_FLAG' for c in ast.walk(p.test)) \
                                 and not _in_orelse(p, n, kv):
                             guarded = True
                         p = kv.parents.get(p)
